@@ -302,7 +302,7 @@ impl IoReader {
 //@@ spec
     ensures
         final(self).consumed == old(self).consumed,
-        r is Ok ==> final(self).buf@.len() >= len && final(self).buf@ + final(self).reader.rest@ =~= old(self).buf@ + old(self).reader.rest@,   // [C20.reader.peek-does-not-consume] filling the peek buffer moves bytes from the stream into the buffer, in order, and loses none
+        r is Ok ==> final(self).buf@.len() >= len && final(self).buf@ + final(self).reader.rest@ =~= old(self).buf@ + old(self).reader.rest@,   // [C20.reader.peek-does-not-consume] [C15.reader.short-input-is-an-error] a successful fill really holds the `len` octets asked for: a frame that ends part-way through a value (truncated descriptor, array body longer than the frame) is reported as an error here -- the callers slice `&buf[..len]` and would panic in the engine task otherwise; filling the peek buffer moves bytes from the stream into the buffer, in order, and loses none
         final(self).buf@.len() <= old(self).buf@.len() + (old(self).reader.rest@.len() - final(self).reader.rest@.len()),     // [C04.ioreader.buffer-holds-only-stream-bytes] success or failure, the peek buffer never grows beyond the bytes the stream actually supplied: a declared length cannot make it allocate
         r is Ok ==> final(self).buf@.len() == (if old(self).buf@.len() >= len { old(self).buf@.len() } else { len as nat }),   // [C20.reader.peeks-no-more-than-asked] the peek buffer is filled up to what was asked for and no further: nothing beyond the value being decoded is taken off the stream (what follows it -- a transfer's payload after its performative -- stays in the stream)
         is_suffix(final(self).reader.rest@, old(self).reader.rest@),
